@@ -53,17 +53,21 @@ Section Shutdown.
     (sd_closed s = true -> sd_overlapped s = false -> sd_inflight s = []) /\
     (sd_run_done s = true \/ sd_draining s = true -> sd_closed s = true) /\
     (sd_run_done s = true \/ sd_draining s = true -> sd_batch s = []) /\
+    (sd_phase s = PSawEmpty -> sd_overlapped s = false -> sd_parked s = [] /\ sd_q s = []) /\
     (sd_run_done s = true -> sd_overlapped s = false -> sd_parked s = [] /\ sd_q s = []) /\
-    (sd_wait_for_adders cfg = true -> sd_run_done s = true ->
-       sd_inflight s = [] /\ sd_parked s = [] /\ sd_q s = []).
+    (sd_rule cfg = RuleFinalDrain -> sd_phase s = PFinal \/ sd_run_done s = true ->
+       sd_inflight s = [] /\ sd_parked s = []) /\
+    (sd_rule cfg = RuleFinalDrain -> sd_run_done s = true -> sd_q s = []).
 
-  Ltac inv7 :=
-    refine (conj _ (conj _ (conj _ (conj _ (conj _ (conj _ _))))));
-    cbn [sd_started sd_sent sd_failing sd_q sd_parked sd_inflight sd_closed sd_batch sd_draining sd_run_done sd_overlapped].
+  Ltac inv9 :=
+    refine (conj _ (conj _ (conj _ (conj _ (conj _ (conj _ (conj _ (conj _ _))))))));
+    unfold sd_draining;
+    cbn [sd_started sd_sent sd_failing sd_q sd_parked sd_inflight sd_closed sd_batch sd_phase sd_run_done sd_overlapped].
 
   Ltac triv :=
     try solve [ assumption | reflexivity | discriminate | lia | tauto | congruence
               | intros [?|?]; solve [discriminate | tauto | congruence | auto]
+              | intros ? [?|?]; solve [discriminate | tauto | congruence | auto]
               | intros; solve [discriminate | congruence | tauto | lia | auto] ].
 
   Definition ev_submitted (ev : sdev) : list N := match ev with EAddStart c => [c] | _ => [] end.
@@ -73,7 +77,7 @@ Section Shutdown.
 
   Ltac cons_tac :=
     unfold conserved, sd_pending;
-    cbn [sd_started sd_sent sd_failing sd_q sd_parked sd_inflight sd_closed sd_batch sd_draining sd_run_done sd_overlapped
+    cbn [sd_started sd_sent sd_failing sd_q sd_parked sd_inflight sd_closed sd_batch sd_phase sd_run_done sd_overlapped
          ev_submitted done_ids map fst];
     rewrite ?done_ids_dones; intros x; cnt_norm.
 
@@ -83,109 +87,123 @@ Section Shutdown.
     let o := snd (sd_step cfg s ev) in
     sd_inv s' /\ conserved s s' ev o.
   Proof.
-    intros (Hc & Hb & Ha & He & Hf & Hg & Hn).
+    intros (Hc & Hb & Ha & He & Hf & Hs & Hg & Hn & Hm). unfold sd_draining in *.
     assert (Hnoop : sd_inv s /\ forall e, ev_submitted e = [] -> conserved s s e []).
-    { split; [inv7; triv|]. intros e E. unfold conserved. intros x. rewrite E. cbn. cnt_norm. lia. }
+    { split; [inv9; triv|]. intros e E. unfold conserved. intros x. rewrite E. cbn. cnt_norm. lia. }
     destruct Hnoop as (Hsame & Hcons).
-    destruct ev as [c|c|c|c|c| | | | | |]; cbn [sd_step].
+    assert (Hdr : sd_phase s <> PMain -> sd_closed s = true).
+    { intros H. apply He. right. destruct (sd_phase s); congruence. }
+    destruct ev as [c|c|c|c|c| | | | | | |]; cbn [sd_step].
     - (* start *)
-      cbn [fst snd]. split; [inv7; triv|]. cons_tac. lia.
+      cbn [fst snd]. split; [inv9; triv|]. cons_tac. lia.
     - (* check *)
       destruct (remove1 c (sd_started s)) as [rest|] eqn:R; cbn [fst snd]; [|split; [exact Hsame|apply Hcons; reflexivity]].
       pose proof (remove1_cnt _ _ _ R) as P.
       destruct (sd_closed s) eqn:C; cbn [fst snd].
-      + split; [inv7; triv|]. cons_tac. specialize (P x). lia.
-      + split.
-        * inv7; triv;
-            first [ solve [intros [H|H]; [specialize (He (or_introl H))|specialize (He (or_intror H))]; congruence]
-                  | solve [intros W H; specialize (He (or_introl H)); congruence]
-                  | solve [intros H; specialize (He (or_introl H)); congruence] ].
-        * cons_tac. specialize (P x). lia.
+      + split; [inv9; triv|]. cons_tac. specialize (P x). lia.
+      + (* the batcher is open: Run is in its main loop and has not returned *)
+        assert (Hmain : sd_phase s = PMain) by (destruct (sd_phase s) eqn:Ph; auto; exfalso; specialize (Hdr ltac:(congruence)); congruence).
+        assert (Hnd : sd_run_done s = false).
+        { destruct (sd_run_done s) eqn:D; [specialize (He (or_introl eq_refl)); congruence|reflexivity]. }
+        split; [|cons_tac; specialize (P x); lia].
+        rewrite Hmain, Hnd in *. inv9; triv.
     - (* send *)
       destruct (remove1 c (sd_inflight s)) as [rest|] eqn:R; cbn [fst snd]; [|split; [exact Hsame|apply Hcons; reflexivity]].
       pose proof (remove1_cnt _ _ _ R) as P.
       assert (Hno : sd_closed s = true -> sd_overlapped s = false -> False).
       { intros C O. rewrite (Ha C O) in R. discriminate. }
-      assert (Hno2 : sd_wait_for_adders cfg = true -> sd_run_done s = true -> False).
+      assert (Hno2 : sd_rule cfg = RuleFinalDrain -> sd_phase s = PFinal \/ sd_run_done s = true -> False).
       { intros W D. destruct (Hn W D) as (E & _). rewrite E in R. discriminate. }
+      assert (HnoS : sd_phase s = PSawEmpty -> sd_overlapped s = false -> False).
+      { intros Ph O. apply Hno; [apply Hdr; congruence|exact O]. }
+      assert (HnoD : sd_run_done s = true -> sd_overlapped s = false -> False).
+      { intros D O. apply Hno; [apply He; auto|exact O]. }
       destruct (Nat.ltb_spec (length (sd_q s)) (sd_cap cfg)) as [Hlt|Hge]; cbn [fst snd].
       + split.
-        * inv7; triv;
+        * inv9; triv;
             first [ solve [rewrite app_length; cbn; lia]
                   | solve [intros Hp; specialize (Hb Hp); lia]
-                  | solve [intros C O; exfalso; auto]
-                  | solve [intros D O; exfalso; apply Hno; auto]
-                  | solve [intros W D; exfalso; auto] ].
+                  | solve [intros C O; exfalso; eauto]
+                  | solve [intros W D; exfalso; eauto] ].
         * cons_tac. specialize (P x). lia.
       + split.
-        * inv7; triv;
-            first [ solve [intros C O; exfalso; auto]
-                  | solve [intros D O; exfalso; apply Hno; auto]
-                  | solve [intros W D; exfalso; auto] ].
+        * inv9; triv;
+            first [ solve [intros C O; exfalso; eauto]
+                  | solve [intros W D; exfalso; eauto] ].
         * cons_tac. specialize (P x). lia.
     - (* finish *)
       destruct (remove1 c (sd_sent s)) as [rest|] eqn:R; cbn [fst snd]; [|split; [exact Hsame|apply Hcons; reflexivity]].
-      split; [inv7; triv|]. cons_tac. lia.
+      split; [inv9; triv|]. cons_tac. lia.
     - (* fail *)
       destruct (remove1 c (sd_failing s)) as [rest|] eqn:R; cbn [fst snd]; [|split; [exact Hsame|apply Hcons; reflexivity]].
       pose proof (remove1_cnt _ _ _ R) as P.
-      split; [inv7; triv|]. cons_tac. specialize (P x). lia.
+      split; [inv9; triv|]. cons_tac. specialize (P x). lia.
     - (* Run receives a call *)
-      destruct (sd_run_done s || sd_draining s) eqn:RD; cbn [fst snd]; [split; [exact Hsame|apply Hcons; reflexivity]|].
-      apply orb_false_iff in RD. destruct RD as (R0 & D0).
+      unfold sd_draining.
+      destruct (sd_run_done s) eqn:R0; cbn [orb fst snd]; [split; [exact Hsame|apply Hcons; reflexivity]|].
+      destruct (sd_phase s) eqn:Ph; cbn [fst snd]; try (split; [exact Hsame|apply Hcons; reflexivity]).
       destruct (sd_pop s) as [[[[c q'] ps] snt]|] eqn:Pop; cbn [fst snd]; [|split; [exact Hsame|apply Hcons; reflexivity]].
       destruct (sd_pop_cnt _ _ _ _ _ Pop) as (P & Hl & Hl' & Hps).
-      assert (Hinv' : forall b, sd_inv (mkSd (sd_started s) (sd_inflight s) ps snt (sd_failing s) q' (sd_closed s) b false false
+      assert (Hinv' : forall b, sd_inv (mkSd (sd_started s) (sd_inflight s) ps snt (sd_failing s) q' (sd_closed s) b PMain false
                                              (sd_overlapped s))).
-      { intros b. inv7; triv.
+      { intros b. inv9; triv.
         all: intros Hp; assert (H : sd_parked s <> []) by (intros E; apply Hp; auto); rewrite (Hl' H); auto. }
       destruct (negb (sd_linger_pos cfg) || Nat.eqb (length (sd_batch s ++ [c])) (sd_max cfg)); cbn [fst snd].
       + split; [apply Hinv'|]. cons_tac. specialize (P x). lia.
       + split; [apply Hinv'|]. cons_tac. specialize (P x). lia.
     - (* tick *)
-      destruct (sd_run_done s || sd_draining s || negb (sd_linger_pos cfg)) eqn:RD; cbn [fst snd];
-        [split; [exact Hsame|apply Hcons; reflexivity]|].
-      apply orb_false_iff in RD. destruct RD as (RD & _). apply orb_false_iff in RD. destruct RD as (R0 & D0).
-      split; [inv7; triv|]. cons_tac. lia.
+      unfold sd_draining.
+      destruct (sd_run_done s) eqn:R0; cbn [orb fst snd]; [split; [exact Hsame|apply Hcons; reflexivity]|].
+      destruct (sd_phase s) eqn:Ph; cbn [orb fst snd]; try (split; [exact Hsame|apply Hcons; reflexivity]).
+      destruct (negb (sd_linger_pos cfg)); cbn [fst snd]; [split; [exact Hsame|apply Hcons; reflexivity]|].
+      split; [inv9; triv|]. cons_tac. lia.
     - (* Close *)
       destruct (sd_closed s) eqn:C; cbn [fst snd]; [split; [exact Hsame|apply Hcons; reflexivity]|].
-      split.
-      + inv7; triv;
-          first [ solve [intros _; destruct (sd_inflight s); [reflexivity|discriminate]]
-                | solve [intros H; destruct (sd_inflight s); [auto|discriminate]]
-                | solve [intros [H|H]; [specialize (He (or_introl H))|specialize (He (or_intror H))]; congruence]
-                | solve [intros H; specialize (He (or_introl H)); congruence]
-                | solve [intros W H; specialize (He (or_introl H)); congruence] ].
-      + cons_tac. lia.
+      assert (Hmain : sd_phase s = PMain) by (destruct (sd_phase s) eqn:Ph; auto; exfalso; specialize (Hdr ltac:(congruence)); congruence).
+      assert (Hnd : sd_run_done s = false).
+      { destruct (sd_run_done s) eqn:D; [specialize (He (or_introl eq_refl)); congruence|reflexivity]. }
+      split; [|cons_tac; lia].
+      rewrite Hmain, Hnd in *. inv9; triv.
+      all: try solve [intros _; destruct (sd_inflight s); [reflexivity|discriminate]].
+      all: try solve [intros H; destruct (sd_inflight s); [auto|discriminate]].
     - (* Run takes the close branch *)
-      destruct (sd_closed s && negb (sd_run_done s) && negb (sd_draining s)) eqn:G; cbn [fst snd];
-        [|split; [exact Hsame|apply Hcons; reflexivity]].
-      apply andb_true_iff in G. destruct G as (G & D0). apply andb_true_iff in G. destruct G as (C & R0).
-      apply negb_true_iff in R0. apply negb_true_iff in D0.
-      split; [inv7; triv|]. cons_tac. lia.
+      unfold sd_draining.
+      destruct (sd_closed s) eqn:C; cbn [andb fst snd]; [|split; [exact Hsame|apply Hcons; reflexivity]].
+      destruct (sd_run_done s) eqn:R0; cbn [negb andb fst snd]; [split; [exact Hsame|apply Hcons; reflexivity]|].
+      destruct (sd_phase s) eqn:Ph; cbn [negb fst snd]; try (split; [exact Hsame|apply Hcons; reflexivity]).
+      split; [inv9; triv|]. cons_tac. lia.
     - (* drain one *)
-      destruct (sd_draining s) eqn:D; cbn [fst snd]; [|split; [exact Hsame|apply Hcons; reflexivity]].
-      destruct (sd_pop s) as [[[[c q'] ps] snt]|] eqn:Pop; cbn [fst snd]; [|split; [exact Hsame|apply Hcons; reflexivity]].
-      destruct (sd_pop_cnt _ _ _ _ _ Pop) as (P & Hl & Hl' & Hps).
-      pose proof (Hf (or_intror eq_refl)) as Hbatch. pose proof (He (or_intror eq_refl)) as Hclosed.
-      split.
-      + inv7; triv.
-        all: intros Hp; assert (H : sd_parked s <> []) by (intros E; apply Hp; auto); rewrite (Hl' H); auto.
-      + cons_tac. specialize (P x). lia.
-    - (* drain ends *)
-      destruct (sd_draining s) eqn:D; cbn [fst snd]; [|split; [exact Hsame|apply Hcons; reflexivity]].
+      destruct (sd_phase s) eqn:Ph; cbn [fst snd]; try (split; [exact Hsame|apply Hcons; reflexivity]).
+      all: destruct (sd_pop s) as [[[[c q'] ps] snt]|] eqn:Pop; cbn [fst snd]; [|split; [exact Hsame|apply Hcons; reflexivity]].
+      all: destruct (sd_pop_cnt _ _ _ _ _ Pop) as (P & Hl & Hl' & Hps).
+      all: pose proof (Hf (or_intror eq_refl)) as Hbatch; pose proof (He (or_intror eq_refl)) as Hclosed.
+      all: split; [|cons_tac; specialize (P x); lia].
+      all: inv9; triv.
+      all: try solve [intros Hp; assert (H : sd_parked s <> []) by (intros E; apply Hp; auto); rewrite (Hl' H); auto].
+      all: try solve [intros W _; destruct (Hn W (or_introl eq_refl)) as (E1 & E2); split; [exact E1|apply Hps; exact E2]].
+    - (* the select's default: the queue is empty *)
       destruct (sd_q s) as [|y q] eqn:Q; cbn [fst snd]; [|split; [exact Hsame|apply Hcons; reflexivity]].
-      destruct (negb (sd_wait_for_adders cfg) || Nat.eqb (sd_adding s) 0) eqn:Rule; cbn [fst snd];
-        [|split; [exact Hsame|apply Hcons; reflexivity]].
-      pose proof (Hf (or_intror eq_refl)) as Hbatch. pose proof (He (or_intror eq_refl)) as Hclosed.
       assert (Hpk : sd_parked s = []).
       { destruct (sd_parked s) eqn:P; [reflexivity|]. specialize (Hb ltac:(discriminate)). cbn in Hb. lia. }
-      split.
-      + inv7; triv.
-        (* the drain rule of the code as it is: nobody is between increment and decrement *)
-        intros W _. rewrite W in Rule. cbn in Rule. apply Nat.eqb_eq in Rule. unfold sd_adding in Rule.
-        destruct (sd_inflight s); [auto|cbn in Rule; lia].
-      + cons_tac. rewrite Q. cnt_norm. lia.
+      destruct (sd_phase s) eqn:Ph; destruct (sd_rule cfg) eqn:Ru; cbn [fst snd];
+        try (split; [exact Hsame|apply Hcons; reflexivity]).
+      all: pose proof (Hf (or_intror eq_refl)) as Hbatch; pose proof (He (or_intror eq_refl)) as Hclosed.
+      all: split; [|cons_tac; rewrite ?Q; cnt_norm; lia].
+      all: inv9; triv.
+      all: try solve [intros; split; [exact Hpk|reflexivity]].
+      all: try solve [intros W _; destruct (Hn W (or_introl eq_refl)) as (E1 & E2); split; assumption].
+    - (* the counter is read *)
+      destruct (sd_phase s) eqn:Ph; cbn [fst snd]; try (split; [exact Hsame|apply Hcons; reflexivity]).
+      pose proof (Hf (or_intror eq_refl)) as Hbatch. pose proof (He (or_intror eq_refl)) as Hclosed.
+      destruct (Nat.eqb (sd_adding s) 0) eqn:Ad; cbn [fst snd].
+      + apply Nat.eqb_eq in Ad. unfold sd_adding in Ad.
+        assert (Hz : sd_started s = [] /\ sd_inflight s = [] /\ sd_parked s = [] /\ sd_sent s = []).
+        { destruct (sd_started s), (sd_inflight s), (sd_parked s), (sd_sent s); cbn in Ad; try lia. auto. }
+        destruct Hz as (Z1 & Z2 & Z3 & Z4).
+        destruct (sd_rule cfg) eqn:Ru; cbn [fst snd]; (split; [|cons_tac; lia]); inv9; triv.
+        all: try solve [intros _ O; destruct (Hs eq_refl O) as (E1 & E2); split; assumption].
+        all: try solve [intros; split; assumption].
+      + split; [|cons_tac; lia]. inv9; triv.
   Qed.
 
   Lemma sd_run_ok : forall evs s,
@@ -206,12 +224,12 @@ Section Shutdown.
   Qed.
 
   Lemma sd_inv_init : sd_inv sd_init.
-  Proof. unfold sd_init. inv7; triv; cbn; try lia; intros; repeat split; reflexivity. Qed.
+  Proof. unfold sd_init. inv9; triv; cbn; try lia; intros; repeat split; reflexivity. Qed.
 
   Lemma perm_of_cnt (l l' : list N) : (forall x, cnt x l = cnt x l') -> Permutation l l'.
   Proof. intros H. apply (Permutation_count_occ N.eq_dec). exact H. Qed.
 
-  (* At most once, under every interleaving and either drain rule: the calls whose Add has started are, as a multiset,
+  (* At most once, under every interleaving and every drain rule: the calls whose Add has started are, as a multiset,
      the completed ones plus the ones still on their way (in Add, parked, queued, in the batch). *)
   Theorem sd_conservation : forall evs,
     Permutation (sd_submitted evs)
@@ -223,20 +241,20 @@ Section Shutdown.
 
   (* Exactly once, at full strength, for the code as it is: once Run has returned and every started Add has returned,
      every call whose Add started has completed exactly once -- whatever the interleaving of Adds, Run and Close. *)
-  Theorem sd_exactly_once_with_close : sd_wait_for_adders cfg = true -> forall evs,
+  Theorem sd_exactly_once_with_close : sd_rule cfg = RuleFinalDrain -> forall evs,
     sd_run_done (fst (sd_run cfg sd_init evs)) = true ->
     sd_adds_returned (fst (sd_run cfg sd_init evs)) ->
     Permutation (sd_submitted evs) (done_ids (snd (sd_run cfg sd_init evs))).
   Proof.
     intros W evs Hd (R1 & R2 & R3 & R4 & R5).
     pose proof (sd_conservation evs) as P.
-    pose proof (sd_run_ok evs sd_init sd_inv_init) as ((_ & _ & _ & _ & Hf & _ & Hn) & _).
-    destruct (Hn W Hd) as (_ & _ & Hq). unfold sd_pending in P.
-    rewrite R1, R2, R3, R5, Hq, (Hf (or_introl Hd)) in P. cbn in P. now rewrite app_nil_r in P.
+    pose proof (sd_run_ok evs sd_init sd_inv_init) as ((_ & _ & _ & _ & Hf & _ & _ & _ & Hm) & _).
+    unfold sd_pending in P.
+    rewrite R1, R2, R3, R5, (Hm W Hd), (Hf (or_introl Hd)) in P. cbn in P. now rewrite app_nil_r in P.
   Qed.
 
-  (* What held of the code as it was found (either rule): exactly once provided no Add was between its closed-check and
-     its send at the moment of Close. *)
+  (* What holds of every drain rule: exactly once provided no Add was between its closed-check and its send at the
+     moment of Close. *)
   Theorem sd_exactly_once_no_overlap : forall evs,
     sd_overlapped (fst (sd_run cfg sd_init evs)) = false ->
     sd_run_done (fst (sd_run cfg sd_init evs)) = true ->
@@ -245,7 +263,7 @@ Section Shutdown.
   Proof.
     intros evs Ho Hd (R1 & R2 & R3 & R4 & R5).
     pose proof (sd_conservation evs) as P.
-    pose proof (sd_run_ok evs sd_init sd_inv_init) as ((_ & _ & _ & _ & Hf & Hg & _) & _).
+    pose proof (sd_run_ok evs sd_init sd_inv_init) as ((_ & _ & _ & _ & Hf & _ & Hg & _ & _) & _).
     destruct (Hg Hd Ho) as (_ & Hq). unfold sd_pending in P.
     rewrite R1, R2, R3, R5, Hq, (Hf (or_introl Hd)) in P. cbn in P. now rewrite app_nil_r in P.
   Qed.
@@ -254,29 +272,44 @@ End Shutdown.
 (* The drain rule of the code as it was found: Add(1) passes the closed check; Close; Run takes the close branch, finds
    the queue empty and returns; Add(1) enqueues and returns.  Run and every Add have returned; call 1 never completes. *)
 Theorem sd_old_drain_rule_refuted :
-  exists cfg evs, 0 < sd_cap cfg /\ sd_wait_for_adders cfg = false /\
+  exists cfg evs, 0 < sd_cap cfg /\ sd_rule cfg = RuleQueueEmpty /\
     let (s, o) := sd_run cfg sd_init evs in
     sd_run_done s = true /\ sd_adds_returned s /\ sd_q s = [1%N] /\ sd_submitted evs = [1%N] /\ done_ids o = [].
 Proof.
-  exists (mkSdCfg 4 false 10 false),
-         [EAddStart 1%N; EAddCheck 1%N; EClose; ERunClose; EDrainEnd; EAddSend 1%N; EAddFinish 1%N].
+  exists (mkSdCfg 4 false 10 RuleQueueEmpty),
+         [EAddStart 1%N; EAddCheck 1%N; EClose; ERunClose; EDrainDefault; EAddSend 1%N; EAddFinish 1%N].
   split; [cbn; lia|]. split; [reflexivity|]. vm_compute. repeat split.
 Qed.
 
-(* the same schedule under the rule of the code as it is: Run keeps draining until the Add is through *)
-Example sd_new_drain_rule_example :
-  let cfg := mkSdCfg 4 false 10 true in
-  let evs := [EAddStart 1; EAddCheck 1; EClose; ERunClose; EDrainEnd; EAddSend 1; EAddFinish 1; EDrainEnd; EDrainOne; EDrainEnd]%N in
+(* The first repair (commit cb6e33f): Run finds the queue empty; Add(1) enqueues and decrements the counter; Run reads
+   adding == 0 and returns without looking at the queue again.  Observed on the real batcher (a handful of lost calls in
+   a million closes under load). *)
+Theorem sd_counter_after_empty_rule_refuted :
+  exists cfg evs, 0 < sd_cap cfg /\ sd_rule cfg = RuleCounterAfterEmpty /\
+    let (s, o) := sd_run cfg sd_init evs in
+    sd_run_done s = true /\ sd_adds_returned s /\ sd_q s = [1%N] /\ sd_submitted evs = [1%N] /\ done_ids o = [].
+Proof.
+  exists (mkSdCfg 4 false 10 RuleCounterAfterEmpty),
+         [EAddStart 1%N; EAddCheck 1%N; EClose; ERunClose; EDrainDefault; EAddSend 1%N; EAddFinish 1%N; EDrainCheck].
+  split; [cbn; lia|]. split; [reflexivity|]. vm_compute. repeat split.
+Qed.
+
+(* the same schedule under the rule of the code as it is: after reading adding == 0 Run drains once more *)
+Example sd_final_drain_rule_example :
+  let cfg := mkSdCfg 4 false 10 RuleFinalDrain in
+  let evs := [EAddStart 1; EAddCheck 1; EClose; ERunClose; EDrainDefault; EAddSend 1; EAddFinish 1; EDrainCheck;
+              EDrainOne; EDrainDefault]%N in
   snd (sd_run cfg sd_init evs) = [(1%N, SdShut)] /\ sd_run_done (fst (sd_run cfg sd_init evs)) = true /\
   sd_adds_returned (fst (sd_run cfg sd_init evs)).
 Proof. vm_compute. repeat split. Qed.
 
 Example sd_close_example :
-  let cfg := mkSdCfg 2 false 10 true in
+  let cfg := mkSdCfg 2 false 10 RuleFinalDrain in
   (* 0 is being completed; 1 and 2 fill the queue; 3 is parked in the send; Close; 4 comes after Close *)
   let add c := [EAddStart c; EAddCheck c; EAddSend c; EAddFinish c; EAddFail c] in
   let evs := (add 0 ++ [ERunRecv] ++ add 1 ++ add 2 ++ add 3 ++ [EClose] ++ add 4 ++
-              [ERunRecv; ERunClose; EDrainOne; EDrainOne; EDrainEnd; EAddFinish 3; EDrainEnd])%N in
+              [ERunRecv; ERunClose; EDrainOne; EDrainOne; EDrainDefault; EDrainCheck; EAddFinish 3; EDrainDefault; EDrainCheck;
+               EDrainDefault])%N in
   snd (sd_run cfg sd_init evs) = [(0, SdOk); (4, SdShut); (1, SdOk); (2, SdShut); (3, SdShut)]%N /\
   sd_run_done (fst (sd_run cfg sd_init evs)) = true /\ sd_adds_returned (fst (sd_run cfg sd_init evs)).
 Proof. vm_compute. repeat split. Qed.
